@@ -151,6 +151,22 @@ CLAIMS.update({
 })
 
 CLAIMS.update({
+ 'C38': ('other',
+         'BOUNDED (never counted as proved): the real compute_diff templates (9- and 7-argument overloads), compute_middle_snake, '
+         'end_of_fr_d_path_in_k, end_of_frr_d_path_in_k_plus_delta, ends_of_furthest_d_paths_overlap, snake_end_points and the '
+         'point/snake/d_path_vec/insertion/deletion/edit_script classes, checked against the contract of compute_diff for every '
+         'range of every comparison matrix n x m with n, m <= 3 (quick) / 4 (thorough) - i.e. every pair of sequences of those '
+         'lengths over any alphabet with ANY caller-supplied predicate: the points appended to lcs are in-range matches strictly '
+         'increasing in both coordinates, their number is LCS(A,B) (textbook dynamic programme), ses_len == edit_script::length() '
+         '== |A|+|B|-2 LCS, applying the script to A yields B, the predicate is never applied outside the ranges, every index and '
+         'ABG_ASSERT inside holds.  The recursion is handled deductively: the two recursive calls are replaced by compute_diff\'s '
+         'own contract on a strictly smaller range (measure checked), so no recursion unwinding is involved.',
+         'Loops of compute_middle_snake and below are unwound (6 / 7 times, unwinding assertions on) - hence bounded; sequences '
+         'longer than the bound are not covered.  d_path_vec\'s std::vector<int> base becomes a member (composition rewrite); '
+         'std::vector is a bounded inline-array stand-in.  The iterator type is const int*.', '5 C38'),
+})
+
+CLAIMS.update({
  'C24': ('proof',
          'Second and third sentences of the statement. Real class_diff clause of type_suppression::suppresses_diff (BOUNDED: <= 2 '
          'inserted members, <= 2 ranges, every boundary value / evaluation failure / offset): with a has_data_member_inserted_* '
